@@ -7,6 +7,27 @@ import json, os, subprocess
 ROOT = os.path.dirname(os.path.dirname(os.path.abspath(__file__)))
 
 CHECKS = {
+    "C10": dict(cat="exploration", sec="5 C10",
+                tech="runtime monitor: permutation/replica differential over the real didstore (resolution digest equality across arrival orders and independent stores) + online deactivation/conflict invariants",
+                text="Seeded did:nuts event sets over 13 shapes (linear, 2-/3-way forks, resolved/partial/late forks, deactivation (+fork), root conflict, two DIDs, id clashes) x rich documents (3-4 controllers, keys, services), four signing-time modes, "
+                     "clock jitter and exact duplicates are fed to the real didstore on bbolt in all permutations (<=24 orders quick, <=120 thorough; sampled above), each order on independent stores, with duplicates re-delivered, reopen from disk mid-way and at the end. "
+                     "Oracle: the resolution digest (latest in three forms, Resolve by every source tx / payload hash / version-hash chain / times at, between and around signing times, history, ConflictedCount, DocumentCount, Conflicted set, Iterate; "
+                     "SourceTransactions as sets) is identical across all orders and stores of one set; online after every Add: a delivered deactivation is never resolved as active again, conflicted count/iterator/flag agree; single-head result = that transaction's document.",
+                note="bbolt only; sequential Add (concurrent Add out of scope); Resolve with a ResolveTime after deactivation returning an older active version is unspecified."),
+    "C12": dict(cat="exploration", sec="5 C12",
+                tech="runtime monitor: schema-driven generator of definitions/wallets/envelopes driving the real pe Match/Build/Validate/Resolve and PEXConsumer; independent reference matcher as oracle; submission mutators",
+                text="Generated presentation definitions that pass the bundled JSON schema (const/enum/pattern/type filters, optional fields, formats, all/pick with every subset of count/min/max, nesting <=3) x wallets with matching, near-miss and decoy credentials "
+                     "(JSON-LD and JWT) x envelope shapes drive the real Match, Build, Wallet.BuildSubmission (signed JWT VP), ParseEnvelope, Validate, ResolveConstraintsFields and the PEXConsumer. An independent reference (own JSON reader, path walker, RE2 filter "
+                     "evaluator, requirement-tree evaluator; no code shared with pe) decides soundness, completeness (non-nested), wallet/verifier agreement, rejection of 21 classes of mutated submissions/envelopes that change the descriptor->credential relation, "
+                     "and extracted field values (whole value or single capture). Panics recovered per call.",
+                note="Completeness only for definitions without nesting; contradictory bounds, filters without type, object-valued targets are unspecified; JSON-LD VP signing through the presenter not exercised."),
+    "C18": dict(cat="exploration", sec="5 C18",
+                tech="runtime monitor: recording/scripted RoundTripper at the http client seam observing every outbound URL (incl. redirect hops) during real resolver runs; independent did:jwk/did:key derivation; local histories on a full node with refusing dialer",
+                text="did:web identifier grammar (26 classes: ports, percent-encodings, empty/dot segments, '@', IPv4/IPv6/numeric literals, case, trailing dot, IDN) x 85 server scripts (content types, 22 id-mismatch variants, 21 real 3xx redirect scripts, bodies) through the "
+                     "standalone resolver and a full node's resolver chain: every recorded request must be https, without user-info, to the non-IP host the identifier encodes and the decoded path + /did.json; success only with doc.id == did; every mismatch script fails. "
+                     "Round-trip law URLToDID/DIDToURL for the stated class in both directions. did:jwk (22) and did:key (15) variants resolved three times must be identical and equal an independent derivation, with zero outbound requests. Local subjects created/updated/"
+                     "deactivated on a node (did:web and did:nuts) resolve with zero outbound requests and dials; deactivated errors unless allowed.",
+                note="Numeric hosts that Go does not parse as IP literals, %2F inside a path element and did:jwk text with -/_ are unspecified; ResolveTime variants for deactivated DIDs not built."),
     "C09": dict(cat="exploration", sec="5 C09",
                 tech="runtime monitor: generator-classified (transaction, document) histories through the real DAG verifiers + did:nuts ambassador + didstore; before/after resolvability snapshots; global authorisation invariant on every accepted update",
                 text="Real dag.State with the production verifiers (kid resolution through the didstore), real didstore, real didnuts resolver/key resolvers and the real ambassador subscribed the way network.Subscribe does it. "
